@@ -154,12 +154,23 @@ pub proof fn lemma_div_negdiv(x: int, b: int) requires x >= 0, b < 0 ensures x /
 }
 pub proof fn lemma_rust_div(a: int, b: int) requires b != 0
     ensures vstd::arithmetic::div_mod::rust_div(a, b) == trunc_div(a, b), vstd::arithmetic::div_mod::rust_rem(a, b) == trunc_rem(a, b) {
-    if b < 0 { if a >= 0 { lemma_div_negdiv(a, b); } else { lemma_div_negdiv(-a, b); } }
-    if a == 0 { assert(0int / b == 0) by(nonlinear_arith) requires b != 0; assert(0int / (-b) == 0) by(nonlinear_arith) requires b != 0; }
-    assert(vstd::arithmetic::div_mod::rust_div(a, b) == trunc_div(a, b));
-    if a > 0 { vstd::arithmetic::div_mod::lemma_fundamental_div_mod(a, b); }
-    if a < 0 { vstd::arithmetic::div_mod::lemma_fundamental_div_mod(-a, b);
-               assert(b * (-((-a) / b)) == -(b * ((-a) / b))) by(nonlinear_arith); }
+    if a == 0 {
+        assert(0int / b == 0) by(nonlinear_arith) requires b != 0;
+        assert(0int / (-b) == 0) by(nonlinear_arith) requires b != 0;
+    } else if a > 0 {
+        if b < 0 { lemma_div_negdiv(a, b); }
+        vstd::arithmetic::div_mod::lemma_fundamental_div_mod(a, b);
+        assert(vstd::arithmetic::div_mod::rust_div(a, b) == a / b);
+        assert(trunc_div(a, b) == a / b);
+        assert(vstd::arithmetic::div_mod::rust_rem(a, b) == a % b);
+    } else {
+        if b < 0 { lemma_div_negdiv(-a, b); }
+        vstd::arithmetic::div_mod::lemma_fundamental_div_mod(-a, b);
+        assert(vstd::arithmetic::div_mod::rust_div(a, b) == -((-a) / b));
+        assert(trunc_div(a, b) == -((-a) / b));
+        assert(b * (-((-a) / b)) == -(b * ((-a) / b))) by(nonlinear_arith);
+        assert(vstd::arithmetic::div_mod::rust_rem(a, b) == -((-a) % b));
+    }
 }
 
 // ---- State reads (C11): memory layout of the returned values
@@ -186,3 +197,7 @@ pub proof fn lemma_layout_len(m: Seq<i64>, addr: int, vals: Seq<Seq<i64>>, k: in
 pub open spec fn sp_key_args(s: Seq<i64>) -> Option<(Seq<i64>, int, Seq<i64>)> {
     if s.len() < 1 { None } else { let n = s.last() as int; let t = s.drop_last();
         if n < 0 || !lw_ok(t) { None } else { Some((lw_words(t), n, lw_rest(t))) } } }
+// operands of KeyRange: [.., key.., key_len, num_keys, mem_addr] -> (key, num_keys, mem_addr, rest)
+pub open spec fn sp_read_args(s: Seq<i64>) -> Option<(Seq<i64>, int, int, Seq<i64>)> {
+    if s.len() < 1 || s.last() < 0 { None } else {
+        match sp_key_args(s.drop_last()) { None => None, Some((key, n, rest)) => Some((key, n, s.last() as int, rest)) } } }
